@@ -118,6 +118,11 @@ pub fn run(ctx: &Ctx) -> Report {
     for (i, s) in crate::c13::batch_sources(if thorough { 4 } else { 16 }).into_iter().enumerate() {
         programs.push((format!("index_and_string_probes:{}", i), s, false));
     }
+    // C12's keys of every size (hashing and comparing tuples of every length 0..80, nested long tuples,
+    // numbers at the integer limits, long strings, extreme ranges): arithmetic on 64-bit words
+    for (i, e) in crate::c12::keys_of_every_size().into_iter().enumerate() {
+        programs.push((format!("keys_of_every_size:{}", i), e.request.snippets[0].clone(), false));
+    }
     let n_programs = programs.len();
     // per worker: one runner per configuration + the checked hooks runner as the gate
     let queue = Arc::new(Mutex::new(programs.into_iter()));
